@@ -209,7 +209,7 @@ def restricted_string_type(
         name=name,
         base_type=str,
         validation_fn=validation_fn,
-        register_key=(expression, str),
+        register_key=(expression, regex.flags, str),
         docstring=docstring,
         extra_attrs=extra_attrs,
     )
